@@ -432,9 +432,10 @@ Proof.
     cbn [marshal bind] in Hm; injection Hm as <-.
     + leaf_case Hs Hp Hf ltac:(apply unm_bytes; exact Hut).
     + leaf_case Hs Hp Hf ltac:(idtac).
-      rewrite (unm_bytearray pf o R _ _ _ _ _ _ Hut). cbn [normal_o].
       apply andb_true_iff in Hty. destruct Hty as [Hty _]. apply andb_true_iff in Hty. destruct Hty as [_ Hlen].
-      apply Nat.eqb_eq in Hlen. rewrite zero_underlying, Hut. cbn [zero bytes_of_gval].
+      apply Nat.eqb_eq in Hlen.
+      rewrite (unm_bytearray pf o R _ _ _ _ _ _ Hut) by (rewrite Hlen; apply Nat.le_refl). cbn [normal_o].
+      rewrite zero_underlying, Hut. cbn [zero bytes_of_gval].
       rewrite <- Hlen, firstn_all.
       assert (Hsk : forall k, skipn k (rep k 0) = []) by (induction k; [reflexivity|assumption]).
       rewrite Hsk, app_nil_r. reflexivity.
